@@ -279,6 +279,11 @@ impl Status {
          sig_edits=[lambda t: t.sub_code('R12', r"impl Into<Box<dyn Error \+ Send \+ Sync \+ 'static>>", 'Box<DynError>')],
          ensures=[Clause('G1_a_recognised_error_becomes_what_it_means', 'box_meaning(*err) matches Some(m) ==> agrees(r, m)'),
                   Clause('G2_anything_else_is_unknown', 'box_meaning(*err) is None ==> r.code == Code::Unknown', ['C04'])])
+    u.fn(S, 'map_error', within=W,
+         sig_edits=[lambda t: t.sub_code('R12', r'<E>\(err: E\)', '(err: Box<DynError>)'), lambda t: t.sub_code('R12', r'\bwhere\s+E: Into<Box<dyn Error \+ Send \+ Sync>>,', '')],
+         body_edits=[lambda t: t.sub_code('R12', r'Box<dyn Error \+ Send \+ Sync>', 'Box<DynError>')],
+         ensures=[Clause('G1_a_recognised_error_becomes_what_it_means', 'box_meaning(*err) matches Some(m) ==> agrees(r, m)'),
+                  Clause('G2_anything_else_is_unknown', 'box_meaning(*err) is None ==> r.code == Code::Unknown', ['C04'])])
     u.close('}')
     u.fn(S, 'find_status_in_source_chain', sig_edits=[boxed],
          # the loop's own `err` shadows the parameter, and naming the parameter in the invariant crashes this Verus (mode checker):
